@@ -13,13 +13,18 @@ RUNNER_LOOP = (RUN, 'runner.Runner.run_tests')
 # property -> list of (sidecar, function).  Every obligation generated for these functions is an obligation
 # of the property's check (contracts are shared between properties: a callee's contract carries several).
 FUNCTIONS = {
-    'C01': LAYER_FNS + [RUNNER_LOOP],
+    'C01': LAYER_FNS + [RUNNER_LOOP]
+           # "the test's layer": a test is registered under (and so run with) the layer declared nearest to it
+           + [('find_c09', 'find.tests_from_suite'), ('select_c03', 'find.find_tests'), ('select_c03', 'find.find_tests@order')],
     'C02': [(L, 'runner.handle_layer_failure'), (L, 'runner.tear_down_unneeded'), (L, 'runner.run_layer'),
             RUN_TESTS, RUNNER_LOOP, ('runner_spawn', 'runner.spawn_layer_in_subprocess'),
             # import errors are bad outcomes too: they reach the verdict through tests_from_suite / find_tests
-            ('find_c09', 'find.tests_from_suite'), ('select_c03', 'find.find_tests'), ('select_c03', 'find.find_tests@order'), ('find_c02', 'find.Find.global_setup')],
+            ('find_c09', 'find.tests_from_suite'), ('select_c03', 'find.find_tests'), ('select_c03', 'find.find_tests@order'), ('find_c02', 'find.Find.global_setup'),
+            ('find_c14', 'find.find_suites'),              # whatever a test module raises on import becomes an import error
+            ('features_c18', 'runner.Runner.run')],
     'C07': [('runner_spawn', 'runner.spawn_layer_in_subprocess'), ('process_c07', 'process.SubProcess.report'),
-            ('formatter_c13', 'process.SubProcess.global_setup')],
+            ('formatter_c13', 'process.SubProcess.global_setup'),
+            ('features_c18', 'runner.Runner.run')],        # the child reports only after a test phase that ended normally
     'C04': [(L, 'runner.setup_layer'), (L, 'runner.tear_down_unneeded'), (L, 'runner.run_layer'),
             (L, 'runner.handle_layer_failure'), (RR, TR + '_restoreStdStreams'), (RR, TR + 'startTest'),
             (RR, TR + 'stopTest')] + EVENTS + [PROTOCOL, RUN_TESTS, RUNNER_LOOP]
